@@ -1,1 +1,1 @@
-def wedgeScaleBeforeRotTiltNorms : Bool := true
+def wedgeScaleBeforeRotTiltNorms : Bool := false
